@@ -107,6 +107,9 @@ def run(O, P):
         chained = kind.startswith("chained")
         cfg = vlib.default_config(chainSourceMap=chained)
         fa, fb = "/app/src/a%d.js" % i, "/app/lib/b%d.js" % i
+        if i % 4 == 3:
+            # spellings that are not normalised paths
+            fa = rng.choice(["/app/lib/../src/a%d.js", "/app/./src/a%d.js", "/app//src/a%d.js", "./src/a%d.js", "src/../a%d.js"]) % i
         steps, expect = [], []
         use_evals = (i % 3 == 1)
         def rw(file, modified=True, ch=chained):
@@ -179,7 +182,9 @@ def run(O, P):
                     bad("prepareStackTrace threw: " + st[:200]); failed = True; break
                 fr = parse_frames(st) if isinstance(st, str) else [dict(f, fn=f.get("fn")) for f in (st or [])]
                 want_file = os.path.join(os.path.dirname(file), "orig.ts") if off else file
-                mine = [f for f in fr if f.get("file") in (file, want_file)]
+                # a path and its normalised spelling name the same file
+                NP = lambda x: os.path.normpath(x) if isinstance(x, str) and x else x
+                mine = [f for f in fr if NP(f.get("file")) in (NP(file), NP(want_file))]
                 byfn = {}
                 for f in mine:
                     byfn.setdefault(f.get("fn") if f.get("fn") in ("thrower", "helper", "deep") else "<top>", f)
@@ -188,7 +193,18 @@ def run(O, P):
                     if len(origins) < 2:
                         bad("no eval frames in the stack of a program that throws from eval code", stack=st); failed = True; break
                     for (ofn, ofile, oline, ocol) in origins:
-                        if ofn in lines and (ofile != want_file or int(oline) != lines[ofn] + (off if off else 0)):
+                        if ofn in lines and (NP(ofile) != NP(want_file) or int(oline) != lines[ofn] + (off if off else 0)):
+                            if not os.path.isabs(file) and NP(ofile) == NP(file):
+                                # known finding: the eval-origin pattern only accepts absolute paths
+                                for kf in C.known_for("C11"):
+                                    if kf.get("class") == "eval-frame-relative-file-name":
+                                        line = "%s: %s" % (kf["id"], kf["what"])
+                                        if line not in O.known:
+                                            O.known.append(line)
+                                        break
+                                else:
+                                    bad("eval frame of a file rewritten under a relative name is not translated", stack=st); failed = True
+                                break
                             bad("eval frame: the eval origin in %s is reported at %s:%s, the original position is %s:%d (history kind %s)"
                                 % (ofn, ofile, oline, want_file, lines[ofn] + (off if off else 0), h["kind"]), stack=st); failed = True; break
                     if failed:
@@ -198,7 +214,7 @@ def run(O, P):
                     exp_line = lines[fn] + (off if off else 0)
                     if f is None:
                         bad("no frame for %s in %s (%s path)" % (fn, file, mode), stack=st if isinstance(st, str) else fr[:6]); failed = True; break
-                    if f["line"] != exp_line or f["file"] != want_file:
+                    if f["line"] != exp_line or NP(f["file"]) != NP(want_file):
                         bad("frame of %s is reported at %s:%d, the original position is %s:%d (%s prepareStackTrace path, history kind %s)"
                             % (fn, f["file"], f["line"], want_file, exp_line, mode, h["kind"]), stack=st if isinstance(st, str) else fr[:6]); failed = True; break
                 if failed:
